@@ -79,8 +79,8 @@ def _set_aggregates(resource_provider, aggregate_uuids,
 
 
 @wsgi_wrapper.PlacementWsgify
-@util.check_accept('application/json')
 @microversion.version_handler('1.1')
+@util.check_accept('application/json')
 def get_aggregates(req):
     """GET a list of aggregates associated with a resource provider.
 
@@ -100,8 +100,8 @@ def get_aggregates(req):
 
 
 @wsgi_wrapper.PlacementWsgify
-@util.require_content('application/json')
 @microversion.version_handler('1.1')
+@util.require_content('application/json')
 def set_aggregates(req):
     context = req.environ['placement.context']
     context.can(policies.UPDATE)
